@@ -47,7 +47,7 @@ type Case struct {
 	Invalid  bool   `json:"invalid"`  // the body violates the schema (an integer where a string is required)
 	Skip     bool   `json:"skip"`
 	Auth     string `json:"auth"`  // none | pass | pass-read | fail | fail-read
-	Style    string `json:"style"` // server | client
+	Style    string `json:"style"` // server | client | chunked (ContentLength -1) | plain-reader (ContentLength 0)
 	// Interleave: between the validation of this request and the reading of its forwarded body, another
 	// request (same shape, other content) is validated against the same document
 	Interleave bool `json:"interleave,omitempty"`
@@ -255,6 +255,12 @@ func newRequest(c Case) *http.Request {
 		req.Body = io.NopCloser(bytes.NewBufferString(c.Body))
 		req.ContentLength = int64(len(c.Body))
 		req.GetBody = nil
+		switch c.Style {
+		case "chunked":
+			req.ContentLength = -1 // a chunked upload: the length is not known
+		case "plain-reader":
+			req.ContentLength = 0 // http.NewRequest with a reader it does not know
+		}
 	}
 	if c.Body != "" {
 		ct := c.CT
@@ -655,7 +661,7 @@ func gen(t *rapid.T) Case {
 	c.CT = rapid.SampledFrom([]string{"", "", "application/json; charset=utf-8", "application/json;charset=UTF-8", "application/json; profile=\"x\""}).Draw(t, "ct")
 	c.Skip = rapid.IntRange(0, 3).Draw(t, "skip") == 0
 	c.Auth = rapid.SampledFrom([]string{"none", "none", "pass", "pass-read", "fail", "fail-read", "pass-undeclared", "fail-undeclared-read"}).Draw(t, "auth")
-	c.Style = rapid.SampledFrom([]string{"server", "client"}).Draw(t, "style")
+	c.Style = rapid.SampledFrom([]string{"server", "client", "server", "client", "chunked", "plain-reader"}).Draw(t, "style")
 	c.Interleave = rapid.IntRange(0, 2).Draw(t, "interleave") == 0
 	return c
 }
